@@ -219,7 +219,8 @@ def oob_prints(r, names):
 
 
 BAD_PRINTS = ('nosuchvar%', 'zz9$', '1 +', ') (', 'x% ++ ', 'print', '"abc', '1 2', '',
-              'nosuch(1)', '@', 'a.b.c.d')
+              'nosuch(1)', '@', 'a.b.c.d', 'len("ab")', 'abs(-3)', 'rnd', 'chr$(65)', 'timer',
+              '1 \\ 0', '1 / 0', '32767 + 1', 'instr("abc", "b") + 1')
 
 
 def candidate_stops(prog):
